@@ -56,6 +56,8 @@ def build_guard(g):
         return LogicalNot(build_guard(g[1]))
     if g[0] == "<":
         return Comparison(var(g[1]), "<", g[2])
+    if g[0] == "==":
+        return Comparison(var(g[1]), "==", g[2])
     raise ValueError("bad guard %r" % (g,))
 
 
@@ -362,6 +364,26 @@ def check(inp):
             elif d != base_dump:
                 return ("storage-order", "storage order %s / depends_on variant %d gives %s, base order gives %s"
                         % (order, dep_variant, json.dumps(d), json.dumps(base_dump)), None)
+            if oi == 0 and dep_variant == 0 and len(stmts) <= 4:
+                # the same phase OBJECT after its statements were replaced in place (same ids and edges, guards negated): lowering
+                # it again must give what a fresh phase with those statements gives (nothing about the phase may be remembered)
+                changed = [dict(s_, guard=(["!", s_["guard"]] if s_.get("guard") not in (None, True, False) else s_.get("guard")))
+                           for s_ in stmts]
+                if changed != stmts:
+                    ph = code.phases[PHASE]
+                    for k_, pos in enumerate(order):
+                        ph.statements[k_] = build_stmt(changed[pos], pos, list(changed[pos].get("deps") or []))
+                    try:
+                        again = dump(A.create_ast_from_phase(code, PHASE))
+                        fresh = dump(A.create_ast_from_phase(build_code(changed, order, 0)[0], PHASE))
+                    except Exception as ex:
+                        return ("no-exception", "lowering a phase whose statements were replaced in place raised %s: %s"
+                                % (type(ex).__name__, ex), type(ex).__name__)
+                    if again != fresh:
+                        return ("executed-set", "the phase object was lowered, its statements replaced in place (guards negated) and "
+                                "lowered again: %s, a fresh phase with those statements gives %s" % (json.dumps(again), json.dumps(fresh)), None)
+                    code, objs = build_code(stmts, order, dep_variant)
+                    tree = A.create_ast_from_phase(code, PHASE)
             if oi > 0:
                 continue          # identical tree: the semantic clauses need checking once
             if dep_variant > 0:
@@ -605,6 +627,12 @@ def bounded(payload):
                     run({"stmts": st}, "nested_negations")
                     run({"stmts": [dict(st[1], id="s0", deps=[]), dict(st[0], id="s1", deps=["s0"] if dep else [])]},
                         "nested_negations")
+    # different guards whose hashes collide in CPython (hash(-1) == hash(-2)): guards are the same only if they are EQUAL
+    for ga, gb in ((["==", "m", -1], ["==", "m", -2]), (["<", "x", -1], ["<", "x", -2]), (["==", "m", -2], ["==", "m", -1])):
+        for third in (["!", gb], ga, None):
+            st = [{"id": "s0", "kind": "assign", "deps": [], "guard": ga}, {"id": "s1", "kind": "assign", "deps": ["s0"], "guard": gb},
+                  {"id": "s2", "kind": "assign", "deps": ["s1"], "guard": third}]
+            run({"stmts": st}, "guards_with_colliding_hashes")
     # a guard that mentions a name which is also one of the statement's own loop identifiers: the guard is decided once, before
     # the loops (and before their bounds are evaluated), like every other guard
     for g in (["<", "k", 2], ["!", ["<", "k", 0]], ["<", "i", 1]):
